@@ -1454,6 +1454,13 @@ func init() {
 					us = append(us, Unit{ID: fmt.Sprintf("C12/%s/pad%s-%s/%s", p.a, cfg[0], cfg[1], cfg[2]), Harness: "history", StepBudget: 60_000_000, Params: params})
 				}
 			}
+			// histories with timeouts (virtual clock, same harness as C14's real timed matches): a call after one
+			// that timed out, an iteration whose caller is slower than the timeout, behave as on a fresh Regexp
+			for _, h := range []string{"iterate-slow", "match,iterate-slow", "match,quickmatch", "match,quickmatch,iterate-slow", "quickmatch,idle-most,quickmatch"} {
+				us = append(us, Unit{ID: "C12/clock/" + h, Harness: "clock", PathBudget: 4000, StepBudget: 80_000_000,
+					Params: map[string]string{"pattern": "clock", "history": h, "period_ns": "100000000", "jitter_ns": "0", "ddom": "200000000", "waitdom": "0", "waitconcrete": "1", "poll_cost_ns": "200000",
+						"preempt": "0", "key_extra": "clock/" + h, "interp_replay": "1"}})
+			}
 			return us
 		},
 		Rule: "For each (pattern pair, final call, history): (1) histories of <= 2 earlier calls (bool, find+iterate, find-all, Replace with two replacement patterns, ReplaceFunc, Split, a match that hits the stack limit, calls on another Regexp sharing the global pools) on symbolic texts, the modelled sync.Pool always handing back the most recently returned runner/buffer; (2) one inductive step: after a call the pooled runner's stacks, crawl, positions, code position and retained match arrays are replaced by fresh solver variables (havoc) under the representation invariant; then the final call on a symbolic text; on every feasible path its result equals the same call on a never-used Regexp compiled from the same pattern.",
@@ -1559,6 +1566,19 @@ func init() {
 							"last_timed": itoa(lastTimed), "waitconcrete": "1", "preempt": pre, "key_extra": h + "/" + cfg.period + "/" + cfg.ddom, "interp_replay": "1"}})
 				}
 			}
+			// (1b) real timed matches through Runner.startTimeoutWatch / CheckTimeout: a catastrophic pattern whose
+			// every deadline poll costs a thousandth of the timeout in virtual time (a quick match stays far below the timeout, the catastrophic one needs several thousand polls); concrete times throughout
+			for hi, h := range []string{"match", "quickmatch", "quickmatch,idle-most,match", "quickmatch,stop,match", "match,idle-verylong,match", "quickmatch,quickmatch,match",
+				"match,match", "iterate-slow", "match,iterate-slow", "quickmatch,idle-short,match", "timed,match", "match,stop,idle-verylong,quickmatch,match"} {
+				for ci, cfg := range []struct{ period, d, poll string }{{"100000000", "200000000", "200000"}, {"1000000", "5000000", "5000"}} {
+					if ci == 1 && tier != "thorough" && hi%2 == 1 {
+						continue
+					}
+					us = append(us, Unit{ID: fmt.Sprintf("C14/real/%s/p%s", h, cfg.period), Harness: "clock", PathBudget: 4000, StepBudget: 80_000_000,
+						Params: map[string]string{"pattern": "clock", "history": h, "period_ns": cfg.period, "jitter_ns": "0", "ddom": cfg.d, "waitdom": "0", "waitconcrete": "1", "poll_cost_ns": cfg.poll,
+							"preempt": "0", "key_extra": "real/" + h + "/" + cfg.period, "interp_replay": "1"}})
+				}
+			}
 			// (2) the timeout itself a solver variable and every sleep late by a symbolic jitter of up to 1 ms:
 			// short histories only (each tick adds a 64-bit variable to every later instant)
 			for _, h := range []string{"timed", "quick", "stop,timed", "idle-short,timed"} {
@@ -1572,7 +1592,7 @@ func init() {
 			return us
 		},
 		Rule: "The real makeDeadline / extendClock / runClock / stopClock / reached / durationToTicks are executed with the clock goroutine as a coroutine and a virtual clock: time.Now/Since read a symbolic instant, time.Sleep(p) resumes at a symbolic instant in [t+p, t+p+J]; the timeout d and every waiting time are solver variables in stated ranges; histories of timed matches, quick matches, idle gaps shorter/longer than the timeout, StopTimeoutClock; on every feasible path: a deadline reported reached implies elapsed >= d - (p + J + 2 ticks), not reached implies elapsed < d + 3p + 2J + 2 ticks, a quick match never sees a timeout, the clock goroutine has exited after the last deadline + 1 s + slop and is restarted by the next deadline.",
-		Witnesses: []string{"timeout-fired", "no-timeout", "end"},
+		Witnesses: []string{"timeout-fired", "no-timeout", "real-match-timed-out", "end"},
 		Assumptions: []string{"virtual time: code between two Sleep calls takes no time; scheduling jitter of a sleeper is at most J = 1 ms; the matcher is replaced by polling reached() at an arbitrary later instant"},
 	})
 }
